@@ -868,6 +868,56 @@ proof fn lemma_store_history_accepted(evs: Seq<EditView>, a0: G)
 //@ contract-lemma lemma_balance
 //@ contract-lemma lemma_discard
 
-//@ min-verified 16
+
+// ---------------------------------------------------------------- trivial moves: no manifest transaction, the setsum stays
+// LsmTree::apply_moving_compaction, from opening the file to the guarding assert_eq!: a compaction with one input moves
+// that file to another level; the new version has the setsum of the old one and the assert_eq! cannot fire.
+// ASSUMED: the file named by a setsum records that setsum in its final block (Sst::metadata copies it: unit sst_lookup; that
+// SstBuilder wrote it: unit sst_builder); the caller hands in the compaction's single input (unit lsmtk_compact: the
+// dispatching head of perform_compaction).
+impl Sst {
+    uninterp spec fn recorded(&self) -> G;
+    #[verifier::external_body]
+    fn metadata(&self) -> (r: Result<SstMetadata, SError>) ensures r is Ok ==> md_g(r->Ok_0) == self.recorded() { unimplemented!() }
+}
+impl LsmTree {
+    // open_sst(setsum): the file sst/<setsum>.sst
+    #[verifier::external_body]
+    fn open_named(&self, setsum: Setsum) -> (r: Result<Sst, SError>) ensures r is Ok ==> r->Ok_0.recorded() == setsum.g() { unimplemented!() }
+}
+// `vec![x]`
+fn vec_of_one(m: SstMetadata) -> (r: Vec<SstMetadata>) ensures r@ == seq![m] { let mut v = Vec::new(); v.push(m); proof { assert(v@ =~= seq![m]); } v }
+//@ extract lsmtk/src/tree/mod.rs | impl LsmTree :: fn apply_moving_compaction
+//@ region `let sst = tree.open_named(output)?;` ..; `assert!(tree_setsum1.eq(&tree_setsum2));`
+//@ region-sig <<
+fn moving_compaction_core(tree: &LsmTree, version: &Version, compaction: Compaction, output: Setsum) -> (r: Result<Version, SError>)
+//@ >>
+//@ region-tail <<
+    Ok(new_version)
+//@ >>
+//@ rewrite-re X18 `\bself\.open_sst\(` => `tree.open_named(`
+//@ rewrite-re X18 `(?m)^\s*let version = self\.take_snapshot\(\);\n` => ``
+//@ rewrite X18 `version.version.` => `version.`
+//@ rewrite-re X18 `Arc::new\((.+)\);` => `\1;`
+//@ rewrite-re X17 `assert_eq!\((\w+), (\w+)\);` => `assert!(\1.eq(&\2));`
+//@ rewrite-re? X12 `vec!\[(\w+)\]` => `vec_of_one(\1)`
+//@ pre <<
+        compaction.inputs_g() == seq![output.g()],
+//@ >>
+//@ post <<
+        r is Ok ==> tree_sum(r->Ok_0) == tree_sum(*version),
+//@ >>
+//@ before `let tree_setsum2 = new_version.compute_setsum();` <<
+        proof {
+            // one input out, the same file in: the sum is where it was
+            lemma_gsum_one(output.g());
+            assert(mds_g(seq![meta]) =~= seq![md_g(meta)]);
+            lemma_gsum_one(md_g(meta));
+            lemma_sub_add(tree_sum(*version), output.g());
+        }
+//@ >>
+//@ end
+
+//@ min-verified 17
 } // verus!
 fn main() {}
